@@ -412,16 +412,23 @@ def _run_one(args):
         repo = base.with_override(rel, newsrc)
         mod, ctx = run_property(pid, "quick", repo)
         fails = [i for i in ctx.failures() if i.key(pid) not in base_keys]
+        und = getattr(ctx, "undecided", [])
         if kind == "break":
             hit = [i for i in fails if i.rule.startswith(expect)]
             if hit:
                 return (pid, kind, name, "fired", hit[0].rule)
+            if und:
+                # the expected rule could not decide on this variant; the
+                # run is not silent (exit 1 through another rule, or 2)
+                return (pid, kind, name, "undecided", und[0][1][:120])
             other = [i.rule for i in fails]
             return (pid, kind, name, "MISSED",
                     f"expected {expect}, got {sorted(set(other))}")
         if fails:
             return (pid, kind, name, "FALSE-ALARM",
                     f"{fails[0].rule}: {fails[0].message[:120]}")
+        if und:
+            return (pid, kind, name, "FALSE-UNDECIDED", und[0][1][:120])
         return (pid, kind, name, "silent", "")
     except SyntaxError as e:
         return (pid, kind, name, "skipped", f"variant does not compile: {e}")
